@@ -104,8 +104,7 @@ def r1_schema(report, repo):
                        '%s rendered from the live field on every call' % ks)
 
 
-def r2_record_lists(report, repo):
-  rule = 'C10-R2'
+def r2_record_lists(report, repo, rule='C10-R2'):
   report.rule(rule, 'T-WHO/T-MUST: each cached record list is mutated only by '
               'its add_* method, which appends the conversion of the same '
               'object to the matching cache on the same path')
@@ -580,3 +579,7 @@ def run(report, repo):
   from sa.rules import extra4  # pylint: disable=g-import-not-at-top
   report.guard(extra4.immutable_copy_is_deep, report, repo, 'C10-R8')
   report.guard(extra4.cache_conversions_json_safe, report, repo, 'C10-R9')
+  from sa.rules import extra5 as _e5b  # pylint: disable=g-import-not-at-top
+  from sa.rules import c06 as _c06  # pylint: disable=g-import-not-at-top
+  report.guard(_c06.r8_order, report, repo, rule='C10-R10')
+  report.guard(_e5b.attachments_paired_by_position, report, repo, 'C10-R11')
